@@ -274,6 +274,10 @@ class SimulationMaximumStep(SimulationWithJumpTimes):
         def _build_finer_grid_default(self, jump_times, jump_values):
             return jump_times, jump_values
 
+        # a stretch equal to the maximum step up to rounding is not split (otherwise a multiple of epsilon would get a
+        # last inserted point on top of its end point, e.g. of the maturity)
+        threshold = epsilon * (1 + 1e-12)
+
         def _build_finer_grid(self, jump_times, jump_values):
             # the maturity closes the time grid: it is added as a last point (which repeats the last value) so that
             # the stretch after the last jump is refined as well, and it is removed again from the output
@@ -285,10 +289,10 @@ class SimulationMaximumStep(SimulationWithJumpTimes):
             jump_times = np.append(jump_times, maturity)
             jump_values = np.concatenate((jump_values, last_value), axis=-1)
             dts = np.diff(jump_times, prepend=0)
-            if not any(dts > epsilon):
+            if not any(dts > threshold):
                 return jump_times[:-1], jump_values[..., :-1]
 
-            positions = np.flatnonzero(dts > epsilon)
+            positions = np.flatnonzero(dts > threshold)
             aug_dts = dts
             aug_jump_values = jump_values
             while positions.size > 0:
@@ -300,7 +304,7 @@ class SimulationMaximumStep(SimulationWithJumpTimes):
                     np.where(positions == 0, 0, aug_jump_values[..., positions - 1]),
                     axis=-1,
                 )
-                positions = np.flatnonzero(aug_dts > epsilon)
+                positions = np.flatnonzero(aug_dts > threshold)
             aug_jump_times = np.cumsum(aug_dts)
 
             return aug_jump_times[:-1], aug_jump_values[..., :-1]
